@@ -224,6 +224,7 @@ package decorator
 // What save relies on: printing one file does not touch the package's file list, the decorator's
 // file-name table or the write log.
 //@ func (pr *Restorer) Fprint
+//@ trusted
 //@ modifies allbut(heap(Package.Syntax); heap(Package.Decorator); heap(Package.Dir); heap(Decorator.Filenames); elems(*dst.File); map(*dst.File, string))
 
 //@ func (p *Package) save
@@ -246,6 +247,7 @@ package decorator
 //@ modifies allbut(heap(FileRestorer.cursor); heap(FileRestorer.lines); heap(FileRestorer.comments); heap(FileRestorer.cursorAtNewLine); heap(FileRestorer.base); heap(FileRestorer.Restorer); heap(FileRestorer.file); heap(FileRestorer.Name); heap(Restorer.Fset); heap(Restorer.Extras); heap(Restorer.Map); heap(token.FileSet.base); elems(int); elems(*ast.CommentGroup); map(dst.Node, ast.Node); map(ast.Node, dst.Node))
 
 //@ func (r *FileRestorer) RestoreFile
+//@ ensures error_result: err != nil ==> result == nil
 //@ requires restorer: r.Restorer != nil && r.Ast.Nodes != nil && r.Dst.Nodes != nil
 //@ requires maps: r.mapsInv()
 //@ assumes fileset_base_positive: forall s *token.FileSet :: s.base >= 1
@@ -325,5 +327,30 @@ package decorator
 //@ ensures ast_map_grows: forall k dst.Node :: {has(f.Ast.Nodes, k)} old(has(f.Ast.Nodes, k)) ==> has(f.Ast.Nodes, k) && f.Ast.Nodes[k] == old(f.Ast.Nodes[k])
 
 //@ func (f *fileDecorator) resolvePath
-//@ modifies nothing
+//@ trusted
+//@ modifies newobjects
 //@ ensures error_result: err != nil ==> result == ""
+
+// ---------------------------------------------------------------------------------------------
+// DecorateNode (decorator.go)
+
+// Assumed for now (bodies not under contract): building and linking the fragment list reads the ast and
+// the file set and writes only the file decorator's own tables.
+//@ func (f *fileDecorator) fragment
+//@ trusted
+//@ modifies allbut(map(ast.Node, dst.Node); map(dst.Node, ast.Node); heap(Decorator.Map); heap(fileDecorator.Decorator); heap(Decorator.Resolver); heap(Decorator.Path); heap(Decorator.Filenames); heap(Decorator.Fset); map(*dst.File, string))
+
+//@ func (f *fileDecorator) link
+//@ trusted
+//@ modifies allbut(map(ast.Node, dst.Node); map(dst.Node, ast.Node); heap(Decorator.Map); heap(fileDecorator.Decorator); heap(Decorator.Resolver); heap(Decorator.Path); heap(Decorator.Filenames); heap(Decorator.Fset); map(*dst.File, string); heap(fileDecorator.before); heap(fileDecorator.after); heap(fileDecorator.decorations))
+
+//@ pred (d *Decorator) decMapsInv() bool {
+//@   d.Dst.Nodes != nil && d.Ast.Nodes != nil && d.Filenames != nil &&
+//@   (forall a ast.Node :: {has(d.Dst.Nodes, a)} has(d.Dst.Nodes, a) ==> ref(a) != 0 && allocated(ref(a)) && ref(d.Dst.Nodes[a]) != 0 && allocated(ref(d.Dst.Nodes[a]))) &&
+//@   (forall x dst.Node :: {has(d.Ast.Nodes, x)} has(d.Ast.Nodes, x) ==> ref(x) != 0 && allocated(ref(x)))
+//@ }
+
+//@ func (d *Decorator) DecorateNode
+//@ requires maps: d.decMapsInv()
+//@ ensures error_result: err != nil ==> result == nil
+//@ loop 1 invariant maps: d.decMapsInv()
